@@ -134,7 +134,15 @@ def rule_relative_paths(chk, rid):
            f"the directory handed over is `{U(cs[0].args[1]) if cs else None}`: relative references of a mounted recipe store resolve against the wrong root",
            cs[0] if cs else ur, m, key="root-translated")
     t = U(ur)
-    chk.ob(rid, f"{RC}.NewRecipeSpecStore.update_recipes", "parent if directory == self.LOCAL_RECIPES else join_key(parent, directory)" in t, "cwd = folder of recipes.yaml or its declared sub-directory", ur, m, key="cwd")
+    from ..lib import conditional_values
+    from ..cfg import CFG as _CFG
+    ucfg = _CFG(ur)
+    cwd_ok = False
+    if cs:
+        alts = conditional_values(ucfg, cs[0].args[1].args[0] if isinstance(cs[0].args[1], ast.Call) and cs[0].args[1].args else cs[0].args[1], ucfg.node_of(cs[0]), depth=1)
+        got = {(U(v), ("directory == self.LOCAL_RECIPES", True) in f, ("directory == self.LOCAL_RECIPES", False) in f) for v, f in alts}
+        cwd_ok = got == {("parent", True, False), ("join_key(parent, directory)", False, True)}
+    chk.ob(rid, f"{RC}.NewRecipeSpecStore.update_recipes", cwd_ok, "cwd = folder of recipes.yaml or its declared sub-directory", ur, m, key="cwd")
     chk.ob(rid, f"{RC}.NewRecipeSpecStore.update_recipes", ("key = join_key(cwd, name)" in t and "recipes[key] = recipe" in t) or "recipes[join_key(cwd, name)] = recipe" in t, "provided names are registered under cwd", ur, m, key="register")
 
 
